@@ -15,7 +15,7 @@ def main():
             "thorough_cmd": "./check %s --tier thorough" % pid,
             "evidence_file": "/verif/evidence/%s.json" % pid,
             "replay_cmd_template": "./check %s --replay {path}" % pid,
-            "engine": c.get("engine", "hypothesis"),
+            "engine": c.get("engine", "hypothesis" if c["id"] in ("C11", "C12", "C13") else "hypothesis+atheris"),
             "level_claimed": {"category": "exploration", "text": c["level_text"], "design_ref": c["design_ref"]},
             "level_note": c["level_note"],
             "technique": c["technique"],
@@ -33,8 +33,8 @@ def main():
         "engines": [
             {"name": "hypothesis", "path": "/verif/vlib/runner.py", "serves_properties": [c["id"] for c in CHECKS],
              "kind_free_text": "property-based testing (Hypothesis 6.168: @given over generated programs/inputs, RuleBasedStateMachine for histories), explicit oracles (reference printer, reference models, exact arithmetic, differential twins, metamorphic relations), shrinking to JSON replay files"},
-            {"name": "atheris", "path": "/verif/vlib/fuzz.py", "serves_properties": [c["id"] for c in CHECKS if "atheris" in c.get("engine", "")],
-             "kind_free_text": "coverage-guided fuzzing (libFuzzer via atheris) as secondary engine in thorough tier"},
+            {"name": "atheris", "path": "/verif/vlib/fuzz.py", "serves_properties": [c["id"] for c in CHECKS if c["id"] not in ("C11", "C12", "C13")],
+             "kind_free_text": "coverage-guided fuzzing (libFuzzer via atheris 3.1) as secondary engine in the thorough tier: the property's own Hypothesis strategy (fuzz_one_input) or a hand-written data-provider decoder (C09, C18) turns bytes into cases, the oracle (run_case) runs inside the target; optional - evidence records atheris_available / atheris_execs"},
         ],
         "checks": checks,
         "notes": NOTES,
